@@ -126,6 +126,29 @@ def oracle_reuse(ck, b, s, J, shapes):
     return None
 
 
+def oracle_depths(ck, b, s, Js, shape):
+    """ONE inverse instance, pyramids of different depths one after the other (shallow first, then deeper, then shallower):
+    the number of levels belongs to the pyramid handed over, not to the module"""
+    import torch
+    from pytorch_wavelets import DTCWTForward, DTCWTInverse
+    from ..impl_dwt import T
+    inv = DTCWTInverse(biort=b, qshift=s)
+    desc = 'DTCWT PR %s/%s: one DTCWTInverse instance fed pyramids of depths %s in this order (image %s)' % (b, s, list(Js), tuple(shape))
+    replay = {'oracle': 'depths', 'b': b, 's': s, 'Js': list(Js), 'shape': list(shape)}
+    H, W = shape[-2:]
+    with torch.no_grad():
+        for k, J in enumerate(Js):
+            x = T(gen.float_tensor(ck.nprng, shape))
+            try:
+                y = inv(DTCWTForward(biort=b, qshift=s, J=J)(x))
+            except Exception as e:
+                ck.fail(desc + ': call %d (J=%d) raises %s: %s' % (k + 1, J, type(e).__name__, str(e)[:120]), replay); return 'raise'
+            if tuple(y.shape[-2:]) != (H + H % 2, W + W % 2) or float((y[..., :H, :W] - x).abs().max()) > 1e-7 * max(1.0, float(x.abs().max())):
+                ck.fail(desc + ': call %d (J=%d) does not reconstruct its input' % (k + 1, J), replay); return 'diff'
+    ck.oracle_ok(('depths', b, s, tuple(Js), tuple(shape)), group='reuse', sample={'what': desc})
+    return None
+
+
 def oracle_layouts(ck, b, s, J, x):
     """the same batch handed over in every memory layout of the covering set: the round trip must not care"""
     import torch
@@ -172,6 +195,9 @@ def oracle(ck, extended):
     for b in OD.BIORTS:
         for (H, W) in [(2, 2), (2, 11), (7, 3), (8, 8)]:
             rt.guard(ck, oracle_pr, ck, b, rng.choice(OD.QSHIFTS), rng.randint(1, 3), gen.float_tensor(ck.nprng, (1, 1, H, W)), 2, -1)
+    for (Js, shape) in [((1, 3, 2, 4), (1, 2, 16, 12)), ((2, 3), (1, 1, 4, 4))] + ([] if q else [((3, 1, 5), (2, 1, 9, 14)), ((1, 2, 3, 4, 5), (1, 1, 32, 32))]):
+        b, s = rng.choice(pairs)
+        rt.guard(ck, oracle_depths, ck, b, s, Js, shape)
     for _ in range(3 if q else 20):
         b, s = rng.choice(pairs); J = rng.randint(1, 3)
         shapes = [(1, rng.randint(1, 2), rng.randint(4, 24), rng.randint(4, 24)) for _ in range(rng.randint(2, 3))]
@@ -199,6 +225,8 @@ def replay(ck, path):
         oracle_reuse(ck, f['b'], f['s'], f['J'], [tuple(sh) for sh in f['shapes']])
     elif f['oracle'] == 'layouts':
         oracle_layouts(ck, f['b'], f['s'], f['J'], arr_from(f['x']))
+    elif f['oracle'] == 'depths':
+        oracle_depths(ck, f['b'], f['s'], tuple(f['Js']), tuple(f['shape']))
     else:
         oracle_pr(ck, f['b'], f['s'], f['J'], arr_from(f['x']), f['o'], f['ri'])
     for fl in ck.failures:
